@@ -90,6 +90,13 @@ try:
         print(c, "exit", rc, viol[:1], (msg[0][:200] if msg else ""))
 finally:
     sh("git checkout -- .", cwd="/repo")
+if skip_confirm and os.path.exists(f"{d}/meta.json"):
+    # keep the confirmation recorded by an earlier run
+    old = json.load(open(f"{d}/meta.json"))
+    for k in ("confirmed", "demo_with_change_passes", "demo_without_change_passes", "suite_with_change"):
+        if k in old and k not in meta:
+            meta[k] = old[k]
+    meta["ran"] = sorted(set(old.get("ran", []) + meta["ran"]))
 meta["checks_run_with_change_applied_to_repo"] = results
 meta["detected_by"] = [c for c, r in results.items() if r["exit"] != 0]
 meta["ran"].append("git -C /repo apply patch.diff; python3 tools/check.py <id> --tier quick for " + ",".join(checks) + "; git -C /repo checkout -- .")
